@@ -40,6 +40,6 @@ def main(tier, seed, replay):
     elif viol:
         v = viol[0]
         ck.violation(ck.replay_file("race", {"what": v["viol"], "Case": {k: v[k] for k in ("state", "cfg", "procs", "seed")}, "schedule": v.get("trace")}))
-    elif ck.discharged != ck.obligations:
+    elif ck.discharged != ck.obligations and not ck.violations:
         ck.violation(ck.replay_file("oblig", {"obligation": ck.cov.get("failed_obligations")}), False)
     return ck.finish()
